@@ -54,6 +54,18 @@ def run(runtime):
     return out
 
 
+def strategies(runtime='tokio_runtime'):
+    """-> {program name: [callbacks that served the restart request]} from the real crate"""
+    b = build(runtime)
+    p = subprocess.run([b, 'strategies'], capture_output=True, text=True, timeout=120)
+    out = {}
+    for line in p.stdout.splitlines():
+        m = re.match(r'^(strategy_\w+) restart=(\S*)$', line)
+        if m:
+            out[m.group(1)] = [x for x in m.group(2).split(',') if x]
+    return out
+
+
 if __name__ == '__main__':
     for rt in FEATURE:
         print(rt)
